@@ -207,7 +207,7 @@ static void setup(void) {
     for (int k = 0; k < U; k++) OPS[NOPS++] = (op_t){OP_REMOVE, k, 0, "qhashtbl_remove"};
     OPS[NOPS++] = (op_t){OP_CLEAR, 0, 0, "qhashtbl_clear"};
     for (int k = 0; k < U; k++) OPS[NOPS++] = (op_t){OP_PUTHUGE, k, 0, "qhashtbl_put"};
-    for (int k = 0; k < U; k++) for (int nm = 0; nm < 2; nm++) OPS[NOPS++] = (op_t){OP_GET, k, nm, "qhashtbl_get"};
+    if (sm_hist_mode) for (int k = 0; k < U; k++) for (int nm = 0; nm < 2; nm++) OPS[NOPS++] = (op_t){OP_GET, k, nm, "qhashtbl_get"};   /* in the closure a read is a self-loop that the observation already covers */
     for (int j = 1; j <= 3; j++) for (int k = 0; k < U; k++) OPS[NOPS++] = (op_t){OP_SCANREMOVE, k, j, "qhashtbl_getnext"};
     for (int j = 0; j < 2; j++) { OPS[NOPS++] = (op_t){OP_ALIAS, 0, j, "qhashtbl_remove"}; OPS[NOPS++] = (op_t){OP_ALIAS, 1, j, "qhashtbl_putstr"}; OPS[NOPS++] = (op_t){OP_ALIAS, 2, j, "qhashtbl_put"}; }
     snprintf(SP.prefix, sizeof SP.prefix, "hashtbl:%d:%d:%d:", RANGE, U, NV);
@@ -240,7 +240,8 @@ static int worker(int argc, char **argv) {
     if (vc_replay_key && !strncmp(vc_replay_key, "hashtblpair:", 12)) { int off; sscanf(vc_replay_key, "hashtblpair:%d:%n", &RANGE, &off); for (int i = 0; i < 3; i++) KEYS[i] = PAIRKEYS[i]; U = 3; NV = 2; setup(); vc_case("replay", vc_replay_key); return sm_replay(&SP, vc_replay_key + off); }
     if (vc_replay_key) {
         int off; if (sscanf(vc_replay_key, "hashtbl:%d:%d:%d:%n", &RANGE, &U, &NV, &off) < 3) return 1;
-        setup(); if (argc >= 5 && !strcmp(argv[4], "hist")) sm_hist_mode = 1; vc_case("replay", vc_replay_key); return sm_replay(&SP, vc_replay_key + off);
+        if (argc >= 5 && !strcmp(argv[4], "hist")) sm_hist_mode = 1;
+        setup(); vc_case("replay", vc_replay_key); return sm_replay(&SP, vc_replay_key + off);
     }
     if (argc >= 2 && !strcmp(argv[1], "hugerange")) { hugerange(); return 0; }
     if (argc >= 3 && !strcmp(argv[1], "pair")) {
@@ -251,6 +252,7 @@ static int worker(int argc, char **argv) {
     }
     if (argc < 4) return 1;
     RANGE = atoi(argv[1]); U = atoi(argv[2]); NV = atoi(argv[3]);
+    if (argc >= 9 && !strcmp(argv[4], "hist")) sm_hist_mode = 1;
     setup();
     if (argc >= 9 && !strcmp(argv[4], "hist")) {   /* hashtbl <range> <U> <NV> hist <n> <depth> <shard> <nshards>: unmerged histories from a table holding the first n keys */
         int n = atoi(argv[5]); uint16_t seed[8];
